@@ -85,7 +85,20 @@ def mk_rec(e):
     return Rec(e['p'], e['n'], e['v'], e['t'], bool(e.get('c')))
 
 
-def renumber(events):
+def skew(rng, events, p=0.2, maxback=5):
+    """Clock skew / backward jumps: some items carry a timestamp older than their predecessor's."""
+    out = []
+    n = 0
+    for e in events:
+        e = dict(e)
+        if rng.random() < p:
+            e['t'] = max(0, e['t'] - rng.randint(1, maxback))
+            n += 1
+        out.append(e)
+    return out, n
+
+
+def renumber(events, monotonic=True):
     """Re-derive per-party ordinals and keep time non-decreasing after a
     shrinker removed or reordered events."""
     cnt = {}
@@ -95,9 +108,10 @@ def renumber(events):
         e = dict(e)
         e['n'] = cnt.get(e['p'], 0)
         cnt[e['p']] = e['n'] + 1
-        if e['t'] < t:
-            e['t'] = t
-        t = e['t']
+        if monotonic:
+            if e['t'] < t:
+                e['t'] = t
+            t = e['t']
         out.append(e)
     return out
 
